@@ -36,6 +36,46 @@ pub fn inline_with_rest_parameter(src: &str) -> bool {
     forms.iter().any(|f| walk(f.borrow()))
 }
 
+/// some defun-inline body contains a qq form (the classic inliner wraps the body in a qq of its
+/// own, and classic qq has one level only)
+pub fn inline_body_contains_qq(src: &str) -> bool {
+    use chialisp::compiler::sexp::SExp;
+    use std::borrow::Borrow;
+    let Ok(forms) = chialisp::compiler::sexp::parse_sexp(sut::loc(), src.bytes()) else {
+        return false;
+    };
+    fn has_qq(s: &SExp) -> bool {
+        match s {
+            SExp::Cons(_, a, b) => {
+                if let SExp::Atom(_, h) = a.borrow() {
+                    if h == b"qq" {
+                        return true;
+                    }
+                }
+                has_qq(a.borrow()) || has_qq(b.borrow())
+            }
+            _ => false,
+        }
+    }
+    fn walk(s: &SExp) -> bool {
+        if let Some(l) = s.proper_list() {
+            if l.len() >= 4 {
+                if let SExp::Atom(_, h) = &l[0] {
+                    if h == b"defun-inline" && l[3..].iter().any(has_qq) {
+                        return true;
+                    }
+                }
+            }
+            return l.iter().any(walk);
+        }
+        if let SExp::Cons(_, a, b) = s {
+            return walk(a.borrow()) || walk(b.borrow());
+        }
+        false
+    }
+    forms.iter().any(|f| walk(f.borrow()))
+}
+
 pub struct C03Prop;
 pub static C03: C03Prop = C03Prop;
 
@@ -217,6 +257,12 @@ impl Prop for C03Prop {
         let src = v.case.get("source")?.as_str()?;
         if v.case.get("dialect").and_then(|d| d.as_str()) == Some("classic") && inline_with_rest_parameter(src) {
             return Some("classic-inline-rest-parameter-receives-argument-forms");
+        }
+        // the classic inliner turns (defun-inline F ARGS BODY) into (defmacro F ARGS (qq BODY')) and
+        // classic qq has a single level: an (unquote X) inside a qq of BODY is consumed by the
+        // wrapper, so X is evaluated when the macro runs, not in the program
+        if v.case.get("dialect").and_then(|d| d.as_str()) == Some("classic") && inline_body_contains_qq(src) {
+            return Some("classic-qq-inside-inline-body-loses-a-level");
         }
         None
     }
